@@ -281,8 +281,9 @@ def check_no_truthiness(ctx, fn, param, rule='T19t', why=''):
     for n in ast.walk(fn.node):
         if isinstance(n, ast.If) and any(isinstance(c, ast.Compare) and txt(c.left) == param and len(c.ops) == 1 and
                                          isinstance(c.ops[0], ast.Is) and txt(c.comparators[0]) == 'None' for c in ast.walk(n.test)):
-            rebound = rebound or any(isinstance(x, ast.Name) and x.id == param and isinstance(x.ctx, ast.Store)
-                                     for st in n.body for x in ast.walk(st))
+            # (only an unconditional default: `if p is None: p = X`; a default given on some sub-branch leaves None possible)
+            rebound = rebound or any(isinstance(st, ast.Assign) and any(isinstance(t, ast.Name) and t.id == param for t in st.targets)
+                                     for st in n.body)
     for n in ast.walk(fn.node):
         if isinstance(n, (ast.If, ast.While, ast.IfExp, ast.Assert)):
             boolctx(n.test)
@@ -727,6 +728,7 @@ class TryRaises(Quiet):
     def __init__(self, program, fn, helpers=False):
         super().__init__(program)
         self.where = {}
+        self.inherited = {}
         self.helpers = helpers
         fns = with_helpers(program, fn) if helpers else [fn]
         for t in [x for f in fns for x in ast.walk(f.node)]:
@@ -747,16 +749,28 @@ class TryRaises(Quiet):
                                 self.where[id(n)].append(ty)
 
     def inline(self, walker, op, callee, st):
-        return self.helpers and callee.cls is None and callee.name.startswith('_') and isinstance(op.val.func, ast.Name)
+        if not self.helpers or not callee.name.startswith('_') or callee.name.startswith('__'):
+            return False
+        ok = isinstance(op.val.func, ast.Name) if callee.cls is None else \
+            (isinstance(op.recv_val, ast.Name) and op.recv_val.id in ('self', 'cls'))
+        if ok:
+            tys = self.where.get(id(op.node))
+            if tys:
+                # the call stands inside a try: what the handlers expect is raised by the lookups of the inlined helper
+                self.inherited[id(callee)] = list(tys)
+        return ok
+
+    def sub_raises(self, walker, op, st):
+        tys = self._types(op)
+        if not tys and op.fn is not None and id(op.fn) in self.inherited and op.kind == 'sub_load':
+            tys = tuple('KeyError' if t in ('Exception', 'BaseException', 'LookupError') else t for t in self.inherited[id(op.fn)])
+        return tys
 
     def _types(self, op):
         tys = self.where.get(id(op.node), ())
         return tuple('KeyError' if t in ('Exception', 'BaseException', 'LookupError') else t for t in tys)
 
     def call_raises(self, walker, op, st):
-        return self._types(op)
-
-    def sub_raises(self, walker, op, st):
         return self._types(op)
 
 
